@@ -140,13 +140,18 @@ class MultiformOperator(QubitOperator):
                            [1, -1j, 1, 1j],
                            [1, 1j, -1j, 1]], dtype=complex)
 
+        # Operators defined on registers of different sizes: the narrower one acts as the identity on the remaining qubits.
+        n_qubits = max(self.n_qubits, other_operator.n_qubits)
+        left = np.pad(self.integer, ((0, 0), (0, n_qubits - self.n_qubits)))
+        right = np.pad(other_operator.integer, ((0, 0), (0, n_qubits - other_operator.n_qubits)))
+
         factors = np.zeros((self.n_terms * other_operator.n_terms), dtype=complex)
-        product = np.zeros((factors.shape[0], self.n_qubits), dtype=int)
+        product = np.zeros((factors.shape[0], n_qubits), dtype=int)
         increment = other_operator.n_terms
 
-        for term_i, integer in enumerate(self.integer):
-            new_cs = c_calc[self.integer[term_i], other_operator.integer]
-            product[term_i * increment: (term_i + 1) * increment] = integer ^ other_operator.integer
+        for term_i, integer in enumerate(left):
+            new_cs = c_calc[left[term_i], right]
+            product[term_i * increment: (term_i + 1) * increment] = integer ^ right
             factors[term_i * increment: (term_i + 1) * increment] = self.factors[term_i] * other_operator.factors * np.prod(new_cs, axis=1)
 
         product, factors = MultiformOperator.collapse(product, factors)
